@@ -111,7 +111,11 @@ def host_pairs(rng, idx, of):
     for k in (1, 2, 3):
         for labs in itertools.product(LABELS, repeat=k) if k < 3 else (tuple(rng.choice(LABELS) for _ in range(3)) for _ in range(1500)):
             hosts.add(".".join(labs))
-    hosts |= {"127.0.0.1", "127.0.0.1.evil.com", "[::1]", "[::1]:80", "[::2]", "[2001:db8::1]", "[::1", "[::ffff:127.0.0.1]", "localhost.", ".localhost", "a..localhost", "1.127.0.0.1", "127.0.0.10"}
+    hosts |= {"127.0.0.1", "127.0.0.1.evil.com", "[::1]", "[::1]:80", "[::2]", "[2001:db8::1]", "[::1", "[::ffff:127.0.0.1]", "localhost.", ".localhost", "a..localhost", "1.127.0.0.1", "127.0.0.10",
+              # brackets are for IPv6 literals; a name or an IPv4 address inside them is another (malformed) host
+              "[127.0.0.1]", "[localhost]", "[a.localhost]", "[a.com]", "[evil.a.com]",
+              # a bracket that is never closed in front of a trusted suffix
+              "[x.localhost", "[::1.localhost", "[::1:@evil.a.com", "[.a.com"}
     for h in sorted(hosts):
         for port in PORTS:
             n += 1
@@ -180,6 +184,19 @@ def check_hosts(rec, rng, idx, of):
             if ok3 != ok:
                 rec.violation("C20/Request.host-differs-from-get_host", f"{ok3} vs {ok}; {case}", case, monitor="label-reference")
                 continue
+            # everything else the request derives from the Host: a value, or SecurityError - never another failure
+            for attr in ("url", "base_url", "root_url", "host_url", "url_root"):
+                try:
+                    getattr(rq, attr)
+                    ok5 = True
+                except SecurityError:
+                    ok5 = False
+                except Exception as e:  # noqa: BLE001
+                    rec.violation(f"C20/Request.{attr}-raises-{type(e).__name__}", f"{e!r}; {case}", case, monitor="exception-type")
+                    break
+                if ok5 != ok:
+                    rec.violation("C20/untrusted-host-accepted" if ok5 else "C20/listed-host-rejected", f"Request.{attr} accepted={ok5}, Request.host accepted={ok}; {case}", case, monitor="label-reference")
+                    break
             # the URL helpers validate as well, whichever part of the URL is asked for
             from werkzeug.wsgi import get_current_url as wsgi_url
 
@@ -251,7 +268,7 @@ def dbg_trusted_set(host):
     return ref_trusted(host, [".localhost", "127.0.0.1"]) if host else {False}
 
 
-HOSTS = ["localhost", "a.localhost", "127.0.0.1", "localhost:5000", "127.0.0.1:80", "evillocalhost", "localhost.evil.com", "127.0.0.1.evil.com", "example.com", None,
+HOSTS = ["[127.0.0.1]", "[localhost]", "[a.localhost]:5000", "localhost", "a.localhost", "127.0.0.1", "localhost:5000", "127.0.0.1:80", "evillocalhost", "localhost.evil.com", "127.0.0.1.evil.com", "example.com", None,
          "[::1]", "[::1]:80", "a" * 64 + ".localhost", "a..localhost", "LOCALHOST", "xn--nxasmq6b.localhost", "a。localhost", "ü.localhost", "localhost:abc", ".localhost"]
 
 
